@@ -17,7 +17,7 @@ import shutil
 import tempfile
 import xml.etree.ElementTree as ET
 
-from harness import schema_xml
+from harness import common, schema_xml
 
 THEOREMS = [
     "HedVerif.C05.attr_roundtrip",
@@ -34,7 +34,10 @@ THEOREMS = [
     "HedVerif.C05.preorder_of_groups",
     "HedVerif.C05.line_roundtrip",
     "HedVerif.C05.wiki_tags_roundtrip",
-    "HedVerif.C05.stripDesc_trimmed",
+    "HedVerif.C05.normEntry_normal",
+    "HedVerif.C05.normDesc_fixed",
+    "HedVerif.C05.blank_description_counterexample",
+    "HedVerif.C05.loaded_descriptions_normal",
     "HedVerif.C05.escape_roundtrip",
     "HedVerif.C05.extend_here_counterexample",
     "HedVerif.C05.nowiki_counterexample",
@@ -1086,7 +1089,7 @@ def gen_forest(rng, depth=0):
             k = rng.choice(["suggestedTag", "takesValue", "relatedTag", "hedId", "x"])
             vs = [rng.choice(["A", "B", "Item-1", "a b", "v1", "1.0"]) for _ in range(rng.choice([0, 0, 1, 1, 2, 3]))]
             attrs.append([k, vs])
-        desc = rng.choice([None, None, "text", " padded ", "a, b=c", "  "])
+        desc = rng.choice([None, None, "text", " padded ", "a, b=c", "  ", " ", "\t", ""])
         out.append([name, desc, attrs, gen_forest(rng, depth + 1)])
     return out
 
@@ -1120,7 +1123,7 @@ def document_fuzz(ctx, impl, sample_rows, n_rows, n_trees):
             elif k < 0.7:
                 r[0] = rng.choice(["", "HED_0000001", "a,b", "True"])
             elif k < 0.85:
-                r[5] = rng.choice(["", " padded ", "x", "  "])
+                r[5] = rng.choice(["", " padded ", "x", "  ", " ", "\t", " \t ", "\u00a0"])
             else:
                 r[2] = rng.choice(["", "HedTag", r[2]])
         sheets.append(rows)
@@ -1178,8 +1181,16 @@ def impl_readline(impl, raw):
         level = ld._get_tag_level(row)
     except IndexError:
         level = None
+    # the description is the one the real `_create_entry` stores (not a copy of its rule: fix 391436a changed it)
+    from hed.schema.hed_schema import HedSchema
+    from hed.schema.hed_schema_constants import HedSectionKey
+    ld2 = impl.SchemaLoaderWiki.__new__(impl.SchemaLoaderWiki)
+    ld2.fatal_errors, ld2.name, ld2._schema = [], "line", HedSchema()
+    entry = ld2._create_entry(1, row, HedSectionKey.ValueClasses)
+    if entry is None or ld2.fatal_errors:
+        return {"err": "create_entry rejects a row its parts accept"}      # an observable difference, never expected
     return {"root": row.startswith("'''"), "level": level, "name": name, "attrs": [list(x) for x in canon_attrs(m_attrs(attrs))],
-            "desc": desc.strip() if desc else None}
+            "desc": entry.description}
 
 
 def impl_parse(impl, s):
@@ -1212,6 +1223,11 @@ def gen_attr_string(rng):
 def mutate_line(rng, line):
     ins = ["{", "}", "[", "]", "*", "'''", "<nowiki>", "</nowiki>", " ", "extend here", "&#8203;", ",", "=", "#"]
     s = line
+    if rng.random() < 0.1 and "[" in s and "]" in s[s.index("["):]:
+        # blank out the description
+        a = s.index("[")
+        b = s.index("]", a)
+        return s[:a + 1] + rng.choice([" ", "  ", "\t", " \t ", ""]) + s[b:]
     for _ in range(rng.randint(1, 3)):
         p = rng.randint(0, len(s))
         if rng.random() < 0.6:
@@ -1228,7 +1244,10 @@ def grammar_fuzz(ctx, impl, sample_lines, n_attr, n_line):
             "a=b,\tc"] + [gen_attr_string(rng) for _ in range(n_attr)]
     raws = ["***", "*", "'''", "* a [", "* a {[", "* a {[x", "''' x", "x * a [d]", "* a'''b [d]", "* a ''' [d]",
             "* n <nowiki>{a} [d]", "</nowiki>* n", "* n </nowiki> <nowiki>", "* n {a, a=b}", "* n {a=b} [ d ]",
-            "** extend here", "* n [extend here]", "*** &#8203;n {a}[d]"]
+            "** extend here", "* n [extend here]", "*** &#8203;n {a}[d]",
+            # blank descriptions: no description since fix 391436a (the model and the real reader must say None)
+            "* n [ ]", "* n [  ]", "* n [\t]", "* n {a} [ ]", "'''n''' [ ]", "* n <nowiki>[ ]</nowiki>",
+            "** n <nowiki>{a=b} [ \t ]</nowiki>", "* n []", "* n [\u00a0]", "* n [ x ]"]
     raws += [mutate_line(rng, rng.choice(sample_lines)) for _ in range(n_line)] if sample_lines else []
     raws += rng.sample(sample_lines, min(len(sample_lines), n_line // 4))
     ans = ctx.model.batch([{"op": "c05.parse", "s": s} for s in strs] + [{"op": "c05.readline", "raw": r} for r in raws] +
@@ -1439,8 +1458,9 @@ x
 
 !# start schema
 
-'''Own-top''' <nowiki>[ ]</nowiki>
+'''Own-top''' <nowiki>[@D@]</nowiki>
 * Own-child <nowiki>[A child.]</nowiki>
+* Other-child <nowiki>{extensionAllowed} [@D@]</nowiki>
 
 
 !# end schema
@@ -1450,6 +1470,7 @@ x
 '''Unit modifiers'''
 
 '''Value classes'''
+* verifBlankClass <nowiki>[@D@]</nowiki>
 
 '''Schema attributes'''
 
@@ -1459,19 +1480,64 @@ x
 
 !# end hed
 """
+# the TSV files are read with QUOTE_NONE: a cell cannot hold a tab (the row reader gets one in `document_fuzz`)
+BLANKS = {"mediawiki": [" ", "  ", "\t"], "tsv": [" ", "  ", "   "]}
+BLANK_MARK = "Verif placeholder description."
+BLANK_ENTRIES = [("tags", "Own-top"), ("tags", "Other-child"), ("value_classes", "verifBlankClass")]
+
+
+def blank_source(impl, src, blank):
+    """a library whose source text holds a blank description on two tags and a value class"""
+    if src == "mediawiki":
+        return impl.from_string(BLANK_LIB.replace("@D@", blank), ".mediawiki")
+    base = impl.from_string(BLANK_LIB.replace("@D@", BLANK_MARK), ".mediawiki")
+    d = impl.scratch()
+    try:
+        base.save_as_dataframes(d, False)
+        hit = 0
+        for root, _, fs in os.walk(d):
+            for f in fs:
+                q = os.path.join(root, f)
+                text = open(q, encoding="utf-8", newline="").read()
+                if BLANK_MARK in text:
+                    hit += text.count(BLANK_MARK)
+                    open(q, "w", encoding="utf-8", newline="").write(text.replace(BLANK_MARK, blank))
+        if hit != len(BLANK_ENTRIES):
+            raise common.HarnessError(f"blank-description probe: {hit} placeholder cells instead of {len(BLANK_ENTRIES)}")
+        return impl.load_schema(d)
+    finally:
+        shutil.rmtree(d, ignore_errors=True)
 
 
 def run_blank_description_probe(ctx, impl):
-    """proposed finding C05-blank-description-empty-string (enabled with C05_PROBE_BLANK=1 until it is registered or
-    fixed): a MediaWiki source whose description is blank loads as '' and comes back as None from every save"""
-    s = impl.from_string(BLANK_LIB, ".mediawiki")
-    case = {"kind": "blank-description", "schema": "library source with [ ] as description"}
-    ctx.case(("blank-description",), nontrivial=True)
-    for fmt in ("xml", "mediawiki"):
-        got, _ = save_load(impl, s, fmt, False)
-        if not (got == s):
-            ctx.violation("reload-differs", dict(case, fmt=fmt, merged=False), first_diff(s, got),
-                          "C05-blank-description-empty-string")
+    """defect C05-blank-description-empty-string (fixed by 391436a; the signature is kept so that a return of the
+    defect is named): a MediaWiki or TSV source whose description is blank (`[ ]`, two blanks, a tab) is read as *no
+    description* (direct oracle on the loaded entries) and the loaded schema round-trips in every format and mode"""
+    sig = "C05-blank-description-empty-string"
+    for src in ("mediawiki", "tsv"):
+        for blank in BLANKS[src]:
+            case = {"kind": "blank-description", "source": src, "blank": blank,
+                    "schema": "library source with a blank description on two tags and a value class"}
+            ctx.case(("blank-description", src, blank), nontrivial=True)
+            ctx.count("blank-description:" + src)
+            try:
+                s = blank_source(impl, src, blank)
+            except impl.HedFileError as e:
+                ctx.violation("blank-description-source-rejected", case, f"{type(e).__name__}: {e}"[:300], sig)
+                continue
+            got_desc = {f"{sec}:{name}": getattr(s, sec)[name].description for sec, name in BLANK_ENTRIES}
+            if any(v is not None for v in got_desc.values()) or s.tags["Own-child"].description != "A child.":
+                ctx.violation("blank-description-not-none", case,
+                              {"descriptions": got_desc, "expected": None, "Own-child": s.tags["Own-child"].description}, sig)
+            for fmt in FORMATS:
+                for merged in modes_of(s):
+                    try:
+                        got, _ = save_load(impl, s, fmt, merged)
+                    except impl.HedFileError as e:
+                        ctx.violation("reload-fails", dict(case, fmt=fmt, merged=merged), f"{type(e).__name__}: {e}"[:300], sig)
+                        continue
+                    if not (got == s):
+                        ctx.violation("reload-differs", dict(case, fmt=fmt, merged=merged), first_diff(s, got), sig)
 
 
 def run(ctx):
@@ -1481,7 +1547,8 @@ def run(ctx):
                          "put a library unit into each unit class of their partner and define unit classes, units, modifiers "
                          "and value classes of their own, a malformed "
                          "stream (format delimiters) that must be rejected, four probe families for the registered "
-                         "findings; model: every attribute string and wiki line of every written entry, generated and "
+                         "findings, MediaWiki and TSV sources with a blank description (read as None, round trip in "
+                         "every format and mode: defect fixed by 391436a); model: every attribute string and wiki line of every written entry, generated and "
                          "mutated attribute strings / lines; non-trivial = a schema actually saved and reloaded, or an "
                          "input the reader accepts")
     ctx.notes.append("XML text <-> tree (ElementTree) and pandas cell quoting run for real on the implementation side; the Lean "
@@ -1524,8 +1591,7 @@ def run(ctx):
             g = EditGen(ctx.rng, ET.parse(files[n]).getroot(), n)
             for fam in FAMILIES:
                 run_edit(ctx, impl, n, files, [g.probe_op(fam)], families=(fam,))
-        if os.environ.get("C05_PROBE_BLANK"):
-            run_blank_description_probe(ctx, impl)
+        run_blank_description_probe(ctx, impl)
         run_partnered_units(ctx, impl, files, names, quick)
         run_rooted(ctx, impl, files, names, quick)
         # generated edits
@@ -1565,6 +1631,11 @@ def replay(ctx, rec):
                      with_model=True)
         elif kind == "multi-library":
             run_merged_refusal(ctx, impl)
+        elif kind == "blank-description":
+            s = blank_source(impl, case["source"], case["blank"])
+            print("source:", case["source"], "blank:", repr(case["blank"]), "loaded descriptions:",
+                  {name: getattr(s, sec)[name].description for sec, name in BLANK_ENTRIES}, "(expected: None)")
+            run_blank_description_probe(ctx, impl)
         elif kind == "attr":
             a = ctx.model.batch([{"op": "c05.parse", "s": case["s"]}])[0]
             r = impl_parse(impl, case["s"])
